@@ -126,6 +126,29 @@ pub struct EndBlock {
     pub events: Vec<abci::Event>,
 }
 
+/// One transaction held by the mempool.
+#[derive(Debug, Clone, PartialEq, Eq)]
+pub struct MempoolEntry {
+    pub address: [u8; ADDRESS_LENGTH],
+    pub nonce: u32,
+    pub tx_id: TransactionId,
+    pub costs: Vec<(asset::IbcPrefixed, u128)>,
+    pub group: String,
+}
+
+/// A read-only copy of the mempool's containers.
+#[derive(Debug, Clone, Default, PartialEq, Eq)]
+pub struct MempoolDump {
+    /// ready transactions, sorted by (account, nonce)
+    pub pending: Vec<MempoolEntry>,
+    /// parked transactions, sorted by (account, nonce)
+    pub parked: Vec<MempoolEntry>,
+    /// the ids the mempool believes it contains
+    pub contained: Vec<TransactionId>,
+    /// removal reasons not yet reported through `CheckTx`
+    pub removal_cache: Vec<(TransactionId, String)>,
+}
+
 /// One sequencer node: the real `App`, its own temporary storage and its own mempool.
 pub struct Node {
     app: App,
@@ -351,6 +374,32 @@ impl Node {
 
     pub async fn mempool_len(&self) -> usize {
         self.mempool.len().await
+    }
+
+    pub async fn mempool_dump(&self) -> MempoolDump {
+        self.mempool.verif_dump().await
+    }
+
+    /// `Mempool::remove_tx_invalid` for the transaction with these bytes (as `prepare_proposal`
+    /// does for a transaction that failed execution).
+    pub async fn mempool_remove_invalid(&mut self, tx: Bytes, reason: &str) -> Result<(), String> {
+        let checked = CheckedTransaction::new(tx, self.app.verif_state())
+            .await
+            .map_err(err_chain)?;
+        self.mempool
+            .remove_tx_invalid(
+                Arc::new(checked),
+                crate::mempool::RemovalReason::FailedExecution(reason.to_string()),
+            )
+            .await;
+        Ok(())
+    }
+
+    /// `Mempool::run_maintenance` against the app's current state, as `App::commit` does.
+    pub async fn mempool_run_maintenance(&mut self, recost: bool, block_height: u64) {
+        self.mempool
+            .run_maintenance(self.app.verif_state(), recost, HashMap::new(), block_height)
+            .await;
     }
 
     /// The transactions `prepare_proposal` would iterate over, in that order.
